@@ -110,3 +110,10 @@ chk('C15', 'exploration',
     'map + dataele + codes implies, and the boolean result must be False exactly when a code was reported.',
     'Trusted: expected_ele() in checks/c15.py, vlib/ref_values.py for data types, vlib/refmap.py for the definitions.',
     'reference-model monitor over an enumerated node x value catalogue', 'DESIGN.md 5 C15')
+chk('C03', 'fault_enumeration',
+    'A catalogue of 16 single-fault kinds (every kind the property lists) is applied one fault at a time to accepted conformant documents of every selectable map, at positions chosen so that matching of the '
+    'neighbours is untouched; for each faulty document the real validator must return False and the captured error tree must hold the expected level/code at the expected set, position in set, element and '
+    'component position and echoed value, the acknowledgement must itemise it under the right AK2, nothing else may be reported and every other set must stay accepted. '
+    'Thousands of (map, node, kind) triples per quick run; the thorough tier repeats every applicable kind three times per base document over 60 bases per map.',
+    'Trusted: vlib/faults.py (expected coordinates computed at injection time from the generator\'s records) and the conformance of the base documents (checked by validating the base first).',
+    'fault injection with runtime localisation oracle over the hooked error tree and parsed acknowledgement', 'DESIGN.md 5 C03')
